@@ -152,6 +152,36 @@ def g_c13(rng, tier):
         c["ops"].insert(len(c["ops"]) - 2, G.gen_warm_op(rng, arms_now))
     return c
 
+def g_c18(rng, tier):
+    """contextual (and some context-free) histories in which contexts arrive as a pandas Series wherever the shape allows it:
+    one row of several features, several rows of one feature, single-decision training batches"""
+    if rng.random() < 0.15:
+        c = gen.gen_cf_case(rng, max_ops=5, warm=False)
+        c["ops"] = list(c["ops"]) + [("predS", [1.0, 2.0]), ("pexpS", [0.5])]       # a context-free bandit has no feature count: rejected
+        return c
+    c = gen.gen_ctx_case(rng, max_ops=7, warm=False, force_dim=rng.choice([1, 1, 2, 3]), njobs=False)
+    c.pop("int_ctx", None); c.pop("int_rs", None)
+    d = len(c["ops"][0][3][0])
+    ops = []
+    for o in c["ops"]:
+        if o[0] in ("pred", "pexp") and o[1] is not None and rng.random() < 0.7:
+            if d == 1:
+                o = (o[0] + "S", [row[0] for row in o[1]])
+            elif len(o[1]) == 1:
+                o = (o[0] + "S", list(o[1][0]))
+        elif o[0] in ("fit", "pfit") and rng.random() < 0.4:
+            if d == 1 and len(o[1]) > 1:
+                o = (o[0] + "S", o[1], o[2], [row[0] for row in o[3]])
+            elif len(o[1]) == 1 and not (c.get("np") and c["np"][0] in ("clusters", "knearest") and o[0] == "fit"):
+                o = (o[0] + "S", o[1], o[2], list(o[3][0]))
+        ops.append(o)
+    # single-decision batches and queries at the end
+    arms = c["arms"]
+    ops.append(("pfitS", [arms[0]], [1.0], [float(rng.randint(0, 4)) for _ in range(d)]))
+    ops.append(("pexpS", [float(rng.randint(0, 4)) for _ in range(d)] if d > 1 else [float(rng.randint(0, 4)) for _ in range(rng.choice([1, 2, 3]))]))
+    c["ops"] = ops
+    return c
+
 def g_c14(rng, tier):
     t = REL.gen_c14(rng, tier)
     return t["base"]
@@ -184,7 +214,7 @@ PROPS = {
             "assumptions": ["in the model a bandit is a value: a copy IS the original, so the two theorems (a copy answers like the original; driving the copy never affects the "
                             "original) are corollaries of determinism and of the isolation theorem of C04; what copy.deepcopy / pickle do to the Python object graph "
                             "(shared arms list, shared and per-arm generators, default factories, scikit-learn estimators) is runtime behaviour observed by the relation only"]},
-    "C18": {"gen": g_any, "fields": ("out", "arms"), "functional": False, "n": (100, 1000),
+    "C18": {"gen": g_c18, "fields": ("out", "arms", "nhist"), "functional": False, "n": (150, 1500),
             "relations": [("containers_and_snapshots", REL.gen_c18, REL.run_c18, (250, 3000))],
             "rule": "the same history passed as lists (reference), C- / Fortran-ordered float arrays, int64 arrays, pandas Series (incl. the single-feature / single-row "
                     "disambiguation), DataFrames and non-contiguous strided views; byte snapshots of every caller object (data, arms list, tree_parameters, arm features) "
